@@ -300,6 +300,8 @@ def _evaluate(job):
         program = Program(overrides={rel: src})
         ctx = Ctx(program, Contracts(program), "quick", 0)
         obs = PROPS.get(pid).obligations(ctx)
+        from . import integrity
+        obs = obs + integrity.obligations(ctx, pid)
         known = _CTX.get("known") or load_known(os.path.join(ROOT, "KNOWN_FINDINGS.txt"))
         red = [o for o in obs if o.status in ("violation", "inconclusive") and not (o.status == "violation" and (pid, o.key) in known)]
         return label, ("red" if red else "green"), (red[0].id + ": " + red[0].status if red else "")
